@@ -23,7 +23,7 @@ open Env
 /-- **Every modelled getter returns the supplied field.**  For every environment given to
 `ElementsEnv::new` (transaction, spent outputs, index, control block, script root, annex argument,
 genesis hash) and every query — each of the 14 getters without argument (the relative-lock maxima
-`tx_lock_distance`/`tx_lock_duration` included), the four `check_lock_*` jets for EVERY number they
+`tx_lock_distance`/`tx_lock_duration` included), the `issuance` jet at every index, the four `check_lock_*` jets for EVERY number they
 may read (success exactly when the number is at most the lock the supplied data imply), the 15 `current_*`
 getters, the 15 `input_*`/issuance getters at EVERY 32-bit index, the 7 `output_*` getters at every
 index, `output_null_datum` at every pair of indices, `tappath` at every 8-bit index, `total_fee`
@@ -102,6 +102,11 @@ theorem getter_marshal (q : Query) (e : EnvArgs) : jetC q (cBuild (marshal e)) =
       rfl
   | totalFee id =>
     simp only [jetC, spec, cBuild, marshal, buildTx, feeOf_marshal]
+  | issuance i =>
+    simp only [jetC, spec, cBuild, marshal, buildTx, EnvArgs.shown, List.getElem?_map, Option.map_map]
+    congr 3
+    funext p
+    exact issuanceW_marshal p
   | checkLock k x =>
     have hfin : (buildTx (marshal e).tx).isFinal = e.isFinal := by
       simp only [buildTx, marshal, EnvArgs.isFinal, EnvArgs.shown, List.all_map]
